@@ -541,6 +541,15 @@ let monitor_pair prop case obs =
            | [p; _; _; inc] -> int_of_string p >= 90 || inc = "1" | _ -> true) (sec "ORDER" sa) in
        if not (all_inc && unique_out && single_src) then "PASS (outside the scope of the statement)" else
        if moved_static && must_static then "PASS (outside the scope: a provider that must be static may depend on the displaced one)" else
+       (* what the init function returns must come from the static part: a Cacheable injector that feeds
+          it cannot be made per-invocation (observation O5: Bind accepts that and init returns zero) *)
+       let init_rets = (match c.bc_init with Some { d_shape = ShFnPtr (_, o); _ } -> o | _ -> []) in
+       if moved_static && List.exists (fun t -> List.mem t init_rets) (down_outs moved) then
+         "PASS (outside the scope: the init function returns a value of the displaced Cacheable injector)" else
+       (* with an init function the static part runs when init is called; a session that invokes first
+          sees no static values in the base chain, but per-invocation ones in the variant *)
+       if moved_static && c.bc_init <> None && (match c.bc_session with true :: _ -> true | _ -> false) then
+         "PASS (outside the scope: the session invokes before it calls init, so the static injector has not run in the base chain)" else
        let strip tok =    (* drop serials: t.p.s -> t.p *)
          let b = Buffer.create 32 in
          let parts = String.split_on_char '.' tok in
@@ -641,7 +650,7 @@ let monitor_line prop line =
        "FAIL the call did not return an error or a result: " ^ obs
      | _, "K" :: rest -> monitor_chain prop rest obs
      | _, "PAIR" :: _ -> monitor_pair prop case obs
-     | ("C19" | "C01"), "N" :: _ ->
+     | ("C19" | "C01" | "C05"), "N" :: _ ->
        (* the condensed provider embedded in an outer chain (B) against the collection bound directly
           with the same inputs (A), both on the implementation *)
        (match split_on_sep case, split_on_sep obs with
@@ -707,7 +716,7 @@ let monitor_line prop line =
        (* the model is the direct computation the helper is specified by *)
        let m = model_line case in
        if obs = m then "PASS" else "FAIL the generated helper differs from direct computation: " ^ first_diff (split_ws obs) (split_ws m)
-     | ("C11" | "C01" | "C03" | "C14" | "C12" | "C08" | "C15"), "H" :: _ ->
+     | ("C11" | "C01" | "C03" | "C14" | "C12" | "C08" | "C15" | "C06"), "H" :: _ ->
        (* the property itself, on the implementation's observations alone: a never-used copy of the
           description (0), the collection after the history (1, 2, 7) and collections derived from it
           before the history (3, 4) behave identically; the derivation with one more provider (5) and the
